@@ -84,9 +84,19 @@ def validate(chunks, timeout=1800):
     return verdicts, stats
 
 
-def run_stage(rep, ntraces, nsteps, seed):
-    """Record random histories, validate them with TLC, report.  Returns coverage dict."""
+def run_stage(rep, ntraces, nsteps, seed, routine_rounds=0):
+    """Record random histories (and routine-level traces), validate them with TLC, report.  Returns coverage dict."""
     chunks = record_random(ntraces, nsteps, seed)
+    nroutine = 0
+    if routine_rounds:
+        from . import routines
+        rt = routines.record_routines(seed, routine_rounds)
+        base = max(t['tid'] for ch in chunks for t in ch) + 1
+        for k, t in enumerate(rt):
+            t['tid'] = base + k
+        nroutine = len(rt)
+        per = (len(rt) + 3) // 4
+        chunks += [rt[i:i + per] for i in range(0, len(rt), per)]
     verdicts, stats = validate(chunks)
     by_tid = {t['tid']: t for ch in chunks for t in ch}
     ok = 0
@@ -99,7 +109,7 @@ def run_stage(rep, ntraces, nsteps, seed):
         elif kind == 'bad':
             idx, clause = detail.split(':', 1)
             ev = tr['events'][int(idx) - 1]
-            sig = 'trace:%s:%s' % (ev['op'], clause)
+            sig = 'trace:%s:%s' % (ev.get('name', ev['op']), clause)
             rep.violation(sig, 'recorded trace rejected by spec/Trace_TTPool.tla at event %s (%s): clause "%s" %s' % (
                 idx, ev['op'], clause, ev.get('raised', '')), dict(kind='pool_trace', trace=tr, event=int(idx) - 1))
         else:
@@ -110,7 +120,7 @@ def run_stage(rep, ntraces, nsteps, seed):
         if len(t['events']) >= 4:
             sample = [{k: v for k, v in e.items() if k not in ('obs', 'cores', 'res', 'matrix')} for e in t['events']]
             break
-    return dict(recorded_traces=len(verdicts), recorded_traces_accepted=ok, recorded_events=nev,
+    return dict(recorded_traces=len(verdicts), recorded_routine_traces=nroutine, recorded_traces_accepted=ok, recorded_events=nev,
                 trace_states=stats['distinct'], trace_transitions=stats['generated'], trace_sample=sample)
 
 
